@@ -147,6 +147,7 @@ def _frame(ctx, SPEC):
         body = ctx.hir(FRAME + "::read_frame_header")
         ix = hq.Index(body)
         n = 0
+        seen = []
         for f in hq.find(body["body"], lambda x: x.get("k") == "For"):
             it = ix.canon(f["iter"])
             aops = [x for x in hq.find(f["body"], lambda x: x.get("k") == "AssignOp")]
@@ -187,10 +188,59 @@ def _frame(ctx, SPEC):
                     good = good and is_local(v0, blid)
             which = "fcs" if "fcs" in H.show(a["l"]) else "did"
             n += 1
+            seen.append(which)
             ctx.check(good and it_ok, R, "reader::%s-little-endian" % which, H.loc(body, a),
                       "%s must be assembled little-endian: value += (buf[i] as _) << (8 * i) for i in 0..len" % which,
                       observed=H.show(a))
-        ctx.check(n == 2, R, "reader::le-loops", body["file"], "expected two little-endian assembly loops", observed=n)
+        # the other spelling: `T::from_le_bytes(array)`.  The value is the little-endian number of *all* bytes of the
+        # array, so for a field of `len` bytes every byte above `len` has to be known zero: the array is a fresh
+        # `[0; N]` whose only write before the use is the read of its first `len` bytes.  (A fully read array - the
+        # magic number - is the N-byte number and needs nothing else.)
+        for c in hq.find(body["body"], lambda x: x.get("k") == "Call" and (H.callee(x) or "").endswith("::from_le_bytes")):
+            arr = hq.peel(c["args"][0]) if c.get("args") else {}
+            if arr.get("k") != "Local":
+                continue
+            lid = arr["lid"]
+            decl = [x for x in hq.find(body["body"], lambda x: x.get("k") == "LetStmt" and x["pat"].get("k") == "Bind" and x["pat"].get("lid") == lid)]
+            zero = len(decl) == 1 and hq.peel(decl[0].get("init") or {}).get("k") == "Repeat" and H.lit_val(hq.peel(decl[0]["init"])["e"]) == 0
+            must = {id(x) for x in ix.dominating_calls(c)}
+            writes = []         # (position, kind, length node, unconditional)
+            for w in hq.find(body["body"], lambda x: x.get("k") in ("AddrOf", "Assign", "AssignOp")):
+                if w["sp"][0] >= c["sp"][0]:
+                    continue
+                tgt = hq.peel(w["e"] if w["k"] == "AddrOf" else w["l"])
+                if w["k"] == "AddrOf" and not w.get("mut"):
+                    continue
+                kind, ln = None, None
+                if tgt.get("k") == "Local" and tgt["lid"] == lid:
+                    kind = "full"
+                elif tgt.get("k") == "Index" and hq.peel(tgt["e"]).get("k") == "Local" and hq.peel(tgt["e"])["lid"] == lid:
+                    i_ = hq.peel(tgt["idx"])
+                    if i_.get("k") == "StructLit" and (i_["path"].get("path") or "").endswith("range::RangeTo") and len(i_["fields"]) == 1:
+                        kind, ln = "prefix", i_["fields"][0]["e"]
+                    else:
+                        kind = "other"
+                if kind is None:
+                    continue
+                call = next((a_ for a_ in ix.ancestors(w) if a_.get("k") in ("MethodCall", "Call")), None)
+                reads = call is not None and call.get("k") == "MethodCall" and call["name"] == "read_exact"
+                writes.append((w["sp"][0], kind if reads or w["k"] != "AddrOf" else "other", ln, call is not None and id(call) in must))
+            writes.sort(key=lambda t: t[0])
+            last = writes[-1] if writes else None
+            if last is not None and last[1] == "full" and last[3]:
+                continue        # a completely read array (magic number): the N-byte little-endian number
+            lens = ix.canon(last[2]) if last is not None and last[2] is not None else ""
+            lensrc = hq.Canon(body, force=True)(last[2]) if last is not None and last[2] is not None else ""
+            which = "fcs" if "frame_content_size_bytes" in lensrc else ("did" if "dictionary_id_bytes" in lensrc else "field@%s" % lens)
+            n += 1
+            seen.append(which)
+            ok = zero and last is not None and last[1] == "prefix" and last[3] and len(writes) == 1
+            ctx.check(ok, R, "reader::%s-little-endian" % which, H.loc(body, c),
+                      "%s read with from_le_bytes: the array must be a fresh [0; N] whose only write is the read of its first `len` bytes "
+                      "(otherwise the bytes above the field keep whatever was in the array)" % which,
+                      observed={"zero-initialised": zero, "writes before the use": [(k_, "unconditional" if m_ else "conditional") for _, k_, _, m_ in writes]})
+        ctx.check(sorted(seen) == ["did", "fcs"], R, "reader::le-fields", body["file"],
+                  "the dictionary id and the frame content size are each assembled once (loop or from_le_bytes form)", observed=sorted(seen))
         # +256 iff field size == 2
         adds = [x for x in hq.find(body["body"], lambda x: x.get("k") == "AssignOp" and x["op"] == "+=" and H.lit_val(x["r"]) == 256)]
         ok = len(adds) == 1
